@@ -1,4 +1,5 @@
 import EduceModel.Lemmas.EqLemmas
+import EduceModel.Generated.Templates
 /-
   C02 — PartialEq is exactly field-wise equality over the compared fields.
 
@@ -319,5 +320,23 @@ example : Sem.evalEq exOps exType (body exType) ⟨1, [3, 4, 5]⟩ ⟨1, [3, 9, 
 example : Sem.evalEq exOps exType (body exType) ⟨1, [3, 4, 5]⟩ ⟨1, [3, 9, 5]⟩ = some false := by decide
 example : Sem.evalEq exOps exType (body exType) ⟨2, [1, 2]⟩ ⟨2, [1, 7]⟩ = some true := by decide
 example : Sem.evalEq exOps exType (body exType) ⟨0, []⟩ ⟨2, [1, 7]⟩ = some false := by decide
+
+
+/-! ## What the generated code calls
+
+The absolute paths (`::core::..`) named by the `quote!` templates of the handler, regenerated from /repo/src on every run
+(`vtool extract`): the functions, traits and types the generated code can reach are exactly these - a call of anything
+else (`::core::ptr::eq`, `::core::fmt::Display::fmt`, `::core::convert::From::from`, ...) is a change of what the
+implementation does and has to be looked at. -/
+
+theorem generated_calls_unchanged_partial_eq :
+    Generated.paths_trait_handlers_partial_eq =
+      ["::core::cmp::Eq", "::core::cmp::PartialEq", "::core::cmp::PartialEq::eq", "::core::cmp::PartialEq::ne", "::core::mem::size_of", "::core::primitive::bool", "::core::primitive::u8", "::core::slice::from_raw_parts"] := by
+  decide +kernel
+
+theorem generated_calls_unchanged_eq :
+    Generated.paths_trait_handlers_eq =
+      ["::core::cmp::Eq", "::core::cmp::PartialEq"] := by
+  decide +kernel
 
 end Educe
